@@ -173,7 +173,6 @@ def lift(x):
 
 class SymC:
     __slots__ = ("re", "im", "den")
-    __array_priority__ = 1000
 
     def __init__(self, re, im=R0, den=None):
         self.re, self.im, self.den = re, im, (den or {})
@@ -251,6 +250,12 @@ class SymC:
     def inverse(self):
         c, d = self.re, self.im
         fc, fd = _ratval(c), _ratval(d)
+        if fc is None:
+            c = z3.simplify(c, som=True)
+            fc = _ratval(c)
+        if fd is None:
+            d = z3.simplify(d, som=True)
+            fd = _ratval(d)
         if fc is not None and fd is not None:
             n2 = fc * fc + fd * fd
             if n2 == 0:
